@@ -151,23 +151,23 @@ theorem frame_question :
     (frame "enc.question").all (· == [(".domain_name", "domain_name"), (".q_type", "question_type"), (".q_class", "question_class")]) = true := by
   decide
 
-/-- record header: owner, TYPE, CLASS (raw 16 bits, validated per type), TTL; RDLENGTH opens a sub-window that the
+/-- record header: owner, TYPE, CLASS (raw 16 bits, validated per type), TTL; then RDLENGTH is read and a sub-window of
+exactly THAT length (`@1` = the value read by step 1; a private helper such as `rr_data` is inlined) is opened, which the
 record reader must leave exhausted (`finished`) -/
 theorem frame_rr :
     (frame "dec.rr_header").all (· == [("_", "domain_name"), ("_", "rr_type"), ("_", "u16"), ("_", "u32")]) = true ∧
-    (frame "dec.rr_data").all (· == [("_", "u16"), ("_", "sub")]) = true ∧
-    (frame "dec.rr").all (· == [("_", "rr_header"), ("_", "rr_data"), ("_", "finished")]) = true := by decide
+    (frame "dec.rr").all (· == [("_", "rr_header"), ("_", "u16"), ("@1", "sub"), ("_", "finished")]) = true := by decide
 
 /-- OPT: options up to the end of the window; one option = code, length, a sub-window of exactly that length handed to
 the reader of that code, which must leave it exhausted; the writer: root owner, TYPE, payload size in CLASS, the
 packed TTL word, then the options inside the RDLENGTH bracket -/
 theorem frame_opt :
     (frame "dec.opt").all (· == [("_", "is_finished"), ("_", "rr_edns_option*")]) = true ∧
-    (frame "dec.edns_option").all (· == [("_", "rr_edns_option_code"), ("_", "u16"), ("_", "sub"), ("_", "rr_edns_ecs"),
+    (frame "dec.edns_option").all (· == [("_", "rr_edns_option_code"), ("_", "u16"), ("@1", "sub"), ("_", "rr_edns_ecs"),
       ("_", "rr_edns_cookie"), ("_", "rr_edns_padding"), ("_", "finished")]) = true ∧
     (frame "enc.opt").all (· == [("_", "domain_name"), ("_", "rr_type"), (".requestor_payload_size", "u16"),
       (".extend_rcode", "u32"), ("_", "create_length_index"), (".edns_options", "rr_edns_option*"),
-      ("_", "set_length_index")]) = true := by decide
+      ("@4", "set_length_index")]) = true := by decide
 
 /-- APL: items up to the end of the window; one item = family, prefix, the negation/length octet, a sub-window of
 exactly that length for the address, left exhausted; the writer emits the address without trailing zero octets and
@@ -175,18 +175,19 @@ back-patches the length octet -/
 theorem frame_apl :
     (frame "dec.apl").all (· == [("_", "is_finished"), ("_", "rr_apl_apitem*")]) = true ∧
     (frame "dec.apitem").all (· == [("_", "rr_address_family_number"), ("_", "u8"), ("_", "u8"), ("_", "sub"),
-      ("_", "rr_address"), ("_", "finished")]) = true ∧
+      ("@0", "rr_address"), ("_", "finished")]) = true ∧
     (frame "enc.apitem").all (· == [("_", "rr_address_family_number"), ("_", "u8"), ("_", "u8"),
       ("_", "rr_address_without_trailing_zeros"), (".negation", "set_address_length_index")]) = true := by decide
 
 /-- SVCB/HTTPS: priority, target, then (service form only) parameters up to the end of the window, each = key, length,
-a sub-window of exactly that length for the value reader, left exhausted -/
+a sub-window of exactly that length (`@4`) for the value reader of that key (`@3`), left exhausted; the writer back-patches
+the RDLENGTH placeholder it created (`@4`) -/
 theorem frame_svcb :
     (frame "dec.svcb").all (· == [("_", "u16"), ("_", "domain_name"), ("_", "is_finished?"), ("_", "u16*"), ("_", "u16*"),
-      ("_", "sub*"), ("_", "rr_service_parameter*"), ("_", "finished*")]) = true ∧
+      ("@4", "sub*"), ("@3", "rr_service_parameter*"), ("_", "finished*")]) = true ∧
     (frame "enc.svcb").all (· == [(".name", "domain_name"), ("_", "rr_type"), ("_", "rr_class"), (".ttl", "u32"),
       ("_", "create_length_index"), (".priority", "u16"), (".target_name", "domain_name"),
-      (".parameters", "rr_service_parameter*"), ("_", "set_length_index")]) = true := by decide
+      (".parameters", "rr_service_parameter*"), ("@4", "set_length_index")]) = true := by decide
 
 /-! ## SvcParam kinds and EDNS options (`SvcParam.key`, `decSvcParam`, `encSvcParam`, `decOption`, `encOption`) -/
 
